@@ -60,9 +60,17 @@
 //! repair extends that guard to `need_produce_result_in_final(join_type)` (those joins then fail cleanly
 //! with ResourcesExhausted instead of answering wrongly).
 //!
-//! Until the repairs are committed the class NestedLoop × MemRefuse{disk} × (target_partitions ≥ 2 or a
-//! multi-partition source) is excluded through `known_signature` (counter `known_excluded`); both findings
-//! are registered under that one class signature in /verif/known_findings.json.
+//! **Third genuine defect** (found by C18's thorough tier, regression case
+//! `/verif/regressions/C18/c18/nlj-fallback-right-unmatched-lost.json`): same fallback path, single partition
+//! everywhere: `t LEFT JOIN u` planned as NLJ `join_type=Right` under a 128 KiB pool returns only the matched
+//! rows (1317 of 2681; every unmatched right row is missing) when `batch_size` is 32 or 64; with batch_size ≥
+//! 1024 the fallback answers correctly. Root cause not isolated (the global right bitmap / output-buffer
+//! handling of `EmitGlobalRightUnmatched`); `/verif/fixes/C18-nlj-fallback-right-unmatched-lost.stopgap.diff`
+//! is only a stop-gap that disables the fallback for join types needing right-side final emission.
+//!
+//! Until the repairs are committed the class NestedLoop × MemRefuse{disk} is excluded through
+//! `known_signature` (counter `known_excluded`); the three findings are registered under the one class
+//! signature `nlj-oom-fallback` in /verif/known_findings.json.
 //!
 //! **Sensitivity probes** (patches in `crates/vf-res/probes/`, run with `tools/mutrun <patch> -- ./check C20
 //! quick`; all on VERIF_SEED=0):
@@ -575,9 +583,9 @@ impl Property for C20 {
         // Two genuine defects of NestedLoopJoinExec's out-of-memory fallback share this class (see the module
         // header): (A) the fallback re-executes the already executed left child (panic below a RepartitionExec),
         // (B) with several right partitions every partition emits its own "unmatched" left rows.
+        // (C) unmatched right rows are lost in the fallback path when batch_size is small — any partitioning.
         let nlj = case.query.shape.join_algo() == Some(JoinAlgo::NestedLoop);
-        let multi = case.cfg.target_partitions >= 2 || case.cfg.parts_t >= 2 || case.cfg.parts_u >= 2;
-        if nlj && multi && matches!(case.fault, FaultKind::MemRefuse { disk: true, .. }) {
+        if nlj && matches!(case.fault, FaultKind::MemRefuse { disk: true, .. }) {
             return Some(NLJ_FALLBACK_SIGNATURE.to_string());
         }
         None
@@ -587,6 +595,6 @@ impl Property for C20 {
     }
 }
 
-pub const NLJ_FALLBACK_SIGNATURE: &str = "nlj-oom-fallback-multi-partition";
+pub const NLJ_FALLBACK_SIGNATURE: &str = "nlj-oom-fallback";
 static FAULT_POINTS: std::sync::atomic::AtomicU64 = std::sync::atomic::AtomicU64::new(0);
 static REACHED_POINTS: std::sync::atomic::AtomicU64 = std::sync::atomic::AtomicU64::new(0);
